@@ -59,7 +59,7 @@ func replay(c *rt.Ctx, raw json.RawMessage) {
 		if strings.HasPrefix(cs.Scope, "sqlite") {
 			res, err = runExclSQLiteOne(c, cs)
 		} else {
-			res, err = runExclDSL(cs)
+			res, err = runExclDSL(cs, nil)
 		}
 		if err != nil {
 			fmt.Println("inconclusive:", err)
@@ -209,7 +209,7 @@ func run(c *rt.Ctx) {
 			w.Begin(cs)
 			var res exclResult
 			var rerr error
-			if p, val, st := rt.Try(func() { res, rerr = runExclDSL(cs) }); p {
+			if p, val, st := rt.Try(func() { res, rerr = runExclDSL(cs, res0) }); p {
 				c.Eval(rt.Digest(cs.Pats, "panic"), true)
 				c.Violation("excl|"+rt.PanicKey(st), fmt.Sprintf("panic: %v", val), cs, map[string]any{"stack": st})
 				continue
@@ -335,6 +335,9 @@ func run(c *rt.Ctx) {
 		base := SkipCase{Kind: "skip", Dia: u.dia, Scope: u.scope, Pair: p}
 		w.Begin(base)
 		table := strings.HasPrefix(u.scope, "table:")
+		var fulls [2][]schema.Change // the full diff per mode, computed once (fresh graphs, never handed to Atlas again)
+		var fullErr [2]error
+		var fullDone [2]bool
 		for si, kinds := range sets {
 			if table && len(kinds) == 2 && si%7 != i%7 { // table scope: all singletons, a seeded seventh of the pairs, all larger sets
 				continue
@@ -345,7 +348,15 @@ func run(c *rt.Ctx) {
 			var full, got []schema.Change
 			var e1, e2 error
 			if pn, val, st := rt.Try(func() {
-				full, e1 = diffOnce(p, u.dia, u.scope, nil, cs.Norm)
+				m := 0
+				if cs.Norm {
+					m = 1
+				}
+				if !fullDone[m] {
+					fulls[m], fullErr[m] = diffOnce(p, u.dia, u.scope, nil, cs.Norm)
+					fullDone[m] = true
+				}
+				full, e1 = fulls[m], fullErr[m]
 				got, e2 = diffOnce(p, u.dia, u.scope, kinds, cs.Norm)
 			}); pn {
 				c.Eval(rt.Digest(u, kinds, "panic"), true)
